@@ -101,7 +101,8 @@ CLAIMS = {
         text="Assume-guarantee closure: every panic-capable site reachable from the interpreter entry (MIR asserts, unwrap/index/"
              "panic calls) is proved unable to fire by an interval/linear/congruence analysis or is discharged by a row citing a "
              "guarantee; each guarantee (opcode cover, endian widths, register bound, no fall-off, validated control targets) is "
-             "checked by comparing the verifier's extracted accept conditions with the interpreter's per-opcode path summaries.",
+             "checked by comparing the verifier's extracted accept conditions with the interpreter's per-opcode path summaries."
+             " Guarantees are checked per accepting path of the verifier (target validated on that path; register fields used by the arm bounded on that path).",
         note=TRUST + "assumption A-addr (slice addresses < 2^63); user helpers outside the claim; non-termination allowed.",
         technique="MIR abstract interpretation (panic inventory) + THIR symbolic summaries, assume-guarantee rows",
         design="5/C05"),
@@ -111,7 +112,8 @@ CLAIMS = {
              "same frame index after increment/decrement, inverse r10 adjustment by the same frame's usage, depth guard before the "
              "frame write with bound == array length, return pc == pc+1 and callee pc == pc+1+sext(imm), no write to r0-r5; the "
              "local-call discriminator (opc == CALL && src == 1) agrees in verifier, interpreter, JIT and stack-usage pass; JIT native "
-             "call template pushes/pops mirror. F19 (JIT does not lower the frame pointer) is a recorded known finding.",
+             "call template pushes/pops mirror. F19 (JIT does not lower the frame pointer) is a recorded known finding."
+             " Loop-head frame-size bookkeeping writes only the current depth's slot (R07.f); the registered stack-usage calculator is the one stored and consulted (R07.g).",
         note=TRUST + "stack-slot non-aliasing under the JIT does NOT hold (F19); JIT behaviour past depth 8 is outside its documented "
              "guarantees; arbitrary calculators only enter through usage(frame).",
         technique="THIR symbolic summaries of the call/exit arms with mirror rules; x86 template decoding",
@@ -120,7 +122,8 @@ CLAIMS = {
         category="proof",
         text="Per engine, from the call arm's summary: key imm as u32, arguments (r1..r5) in order, result in r0, one call per path, "
              "unknown id -> Err (run time / compile time), r6-r10 and the JIT's packet base preserved; x86 stack parity: prologue "
-             "delta, per-local-call delta (0 mod 16) and call-site pushes give rsp = 0 (mod 16) at `call rax` at every depth.",
+             "delta, per-local-call delta (0 mod 16) and call-site pushes give rsp = 0 (mod 16) at `call rax` at every depth."
+             " Cranelift symbol names agree between registration and import declaration (R08.k); the JIT's lookup key is imm as u32.",
         note=TRUST + "SysV AMD64 ABI facts (argument registers, callee-saved set) are the reference; Cranelift's own ABI lowering trusted.",
         technique="THIR symbolic summaries + x86 byte-template decoding with stack-depth accounting + Cranelift IR replay",
         design="5/C08"),
@@ -129,7 +132,8 @@ CLAIMS = {
         text="JIT prologue/epilogue templates for the three wrapper flag configurations are decoded and run from the SysV entry state: "
              "r1 source, r10 = top of a 512-byte area, packet base register, the two fixed-mbuff pointer stores (parametric in the "
              "offsets), epilogue mirrors prologue; wrappers' flags, null-for-empty-packet and argument order; buffer-length closure == "
-             "max(x,y)+8; interpreter/Cranelift wrappers' little-endian pointer writes; Cranelift prelude region variables and r1 select.",
+             "max(x,y)+8; interpreter/Cranelift wrappers' little-endian pointer writes; Cranelift prelude region variables and r1 select."
+             " Both pointer stores happen on every path that runs the program, in the interpreter and Cranelift wrappers (symbolic evaluation).",
         note=TRUST + "interpreter r1/r10 initialisation is checked under C01/R01.f; overlapping offsets excluded by the statement.",
         technique="x86 byte-template decoding of the JIT prologue + structural rules over wrapper THIR + Cranelift prelude replay",
         design="5/C09"),
@@ -137,7 +141,8 @@ CLAIMS = {
         category="proof",
         text="Per-method path rules over symbolic summaries of the VM API methods: failure atomicity of set_program/set_verifier, "
              "verify-before-store, who-may-write, paired writes with compiled-artefact invalidation, None->Err, &self execution. "
-             "Histories of any length follow by induction over calls.",
+             "Histories of any length follow by induction over calls."
+             " Reload starts from a fresh zeroed metadata buffer (R10.g); compile methods always rebuild from the current program and helpers (R10.h); rules also run on the cranelift configuration.",
         note=TRUST + "the stack-usage calculator's private data is outside R10.a; helpers replaced after JIT compilation are a "
              "documented limitation; cranelift_prog invalidation is checked in the cranelift configuration (thorough tier).",
         technique="THIR symbolic execution of API methods with path rules",
@@ -146,7 +151,8 @@ CLAIMS = {
         category="proof",
         text="Panic inventory of the x86-64 JIT and of the Cranelift compiler with assume-guarantee rows; two-pass sizing passes "
              "identical arguments; raw code-buffer writes only behind the emit assert / in fix-up; terminator opcodes have their "
-             "next block prepared; CFG targets only from verified offsets; no clock/RNG reachable (repeatability).",
+             "next block prepared; CFG targets only from verified offsets; no clock/RNG reachable (repeatability)."
+             " Emit predicate exact (R12.i); JIT fix-up targets are anchors, pc+1 or the interpreter's next-pc terms (R12.j).",
         note=TRUST + "Cranelift's own code and IR verifier are trusted; code size < 2^31 assumed from the instruction limit.",
         technique="MIR abstract interpretation (panic inventory) + structural set rules over THIR summaries",
         design="5/C12"),
@@ -172,7 +178,8 @@ CLAIMS = {
         category="proof",
         text="For each of the 123 supported opcodes the disassembler loop body pushes exactly one HLInsn whose opc/dst/src/off are "
              "the decoded fields and whose imm is sext(imm) (or the merged 64-bit lanes for lddw), with the right pc advance; panic "
-             "inventory of to_insn_vec with the precondition-excluded sites quoted. Text rendering is decided under C16.",
+             "inventory of to_insn_vec with the precondition-excluded sites quoted. Text rendering is decided under C16."
+             " The rendered text is the mnemonic plus operands that denote the instruction's own fields under the assembler's grammar (R15.c).",
         note=TRUST + "integer formatting by alloc::fmt trusted.",
         technique="THIR symbolic summaries per opcode + MIR panic inventory",
         design="5/C15"),
